@@ -76,7 +76,7 @@ def runCmd (α : Type) [Sc α] [Codec α] (args : List (String × String)) : Str
         (getArg args "u0").bind (Codec.parse (α := α)),
         (getArg args "us").bind (parseList? (Codec.parse (α := α))) with
   | some b, some sch, some n, some w, some u0, some us =>
-    let scheme := if sch == "mult" then Scheme.mult else if sch == "syst" then Scheme.syst else Scheme.other
+    let scheme := Scheme.ofString sch
     showRun (resamplerRun (b == "1") scheme n w u0 us)
   | _, _, _, _, _, _ => "bad-op"
 
@@ -112,7 +112,7 @@ def xRun (α : Type) [Sc α] [Codec α] (iter : Bool) (args : List (String × St
         (getArg args "u0").bind (Codec.parse (α := α)),
         (getArg args "us").bind (parseList? (Codec.parse (α := α))) with
   | some b, some sch, some n, some w, some u0, some us =>
-    let scheme := if sch == "mult" then Scheme.mult else if sch == "syst" then Scheme.syst else Scheme.other
+    let scheme := Scheme.ofString sch
     showRun (if iter then iterationResample (b == "1") scheme n w u0 us else resamplerRunX (b == "1") scheme n w u0 us)
   | _, _, _, _, _, _ => "bad-op"
 
